@@ -612,9 +612,6 @@ type c28Sig struct {
 }
 
 var c28Known = []c28Sig{
-	{"C28-assoc-index-not-word", regexp.MustCompile(`interface conversion: syntax\.ArithmExpr is (nil|\*syntax\.\w+), not \*syntax\.Word`), nil,
-		[]string{"expand.(*Config).varInd", "expand.(*Config).assignElem", "interp.(*Runner).assignVal"}},
-	{"C28-test-nonword-operand", regexp.MustCompile(`interface conversion: syntax\.TestExpr is \*syntax\.\w+, not \*syntax\.Word`), []string{"interp.(*Runner).bashTest"}, nil},
 	{"C28-nul-byte-quote", regexp.MustCompile(`cannot quote character at byte \d+: shell strings cannot contain null bytes`), nil, nil},
 	{"C28-extglob-unterminated", regexp.MustCompile(`regexp: Compile\(.*\\x00`), nil, nil},
 	{"C28-params-o-nil-stdout", regexp.MustCompile(`nil pointer dereference`), []string{"interp.(*Runner).outf"}, []string{"interp.Params", "interp.New"}},
